@@ -1050,6 +1050,13 @@ static Token *preprocess2(Token *tok) {
 }
 
 void define_macro(char *name, char *buf) {
+  // -D'name(params)=body' defines a function-like macro.
+  if (strchr(name, '(')) {
+    Token *def = tokenize(new_file("<built-in>", 1, format("%s %s\n", name, buf)));
+    read_macro_definition(&def, def);
+    return;
+  }
+
   Token *tok = tokenize(new_file("<built-in>", 1, buf));
   add_macro(name, true, tok);
 }
